@@ -141,6 +141,8 @@ def _msgs(kinds):
             m.header.application_id = 1 << 40         # ConversionError (struct range)
         if k == "huge":
             m.append_avp(Avp(0xf0000002, 0, HUGE))
+        if k == "big":
+            m.append_avp(Avp(0xf0000004, 0, bytes(range(256)) * 400))        # a legal long message: ~100 KB
         if k == "avp":
             m.append_avp(Avp(0xf0000001, 0, bytes([0x30 + i]) * 3))
         out.append(m)
@@ -181,6 +183,8 @@ def fifo_body(k1, sched, tgt):
     hx.begin()
     inputs = (k1, sched, tgt)
     kv = hx.concretize_range(k1, -3, 49)
+    if P.get("kmap"):
+        kv = P["kmap"][kv % len(P["kmap"])]          # long messages: the first send accepts this many bytes
     # byte count and schedule are the only inputs: fix them (solver-decided bisection branches), the threads then run natively
     sched = [hx.concretize_range(x, 0, P["maxstep"]) for x in sched]
     tgt = [hx.concretize_range(x, 0, 3) for x in tgt]
@@ -281,6 +285,9 @@ def specs(tier, seed, carve):
         scen["1x3"] = [["plain", "avp", "plain"]]
     out.append(dict(id="fifo/1x2+second/p1", fn="fifo", params={"producers": [["plain", "avp"]], "slots": 1, "maxstep": 90, "ks": [-1, 0, 1, 20, 21], "second": True}, timeout=1500,
                     bound="as 1x2, plus a second connection with buffered bytes that is writable in the same select rounds and whose first send fails softly; 1 preemption"))
+    kmap = [65535, 65536, 65537, 70000, 102400, 1]
+    out.append(dict(id="fifo/1x3big/p1", fn="fifo", params={"producers": [["plain", "big", "avp"]], "slots": 1, "maxstep": 90, "ks": list(range(len(kmap))), "kmap": kmap, "lo": 0, "hi": 90}, timeout=1500,
+                    bound="a 100 KB message between two short ones; the first send accepts 65535 / 65536 / 65537 / 70000 / 102400 / 1 bytes, the rest is written in full; 1 preemption"))
     for name, groups in scen.items():
         for slots in ((1,) if q else (1, 2)):
             ks = [-1, -3, 0, 1, 20, 21] if (q and slots == 1) else (None if slots == 1 else [0, 21])
